@@ -71,7 +71,11 @@ def edc_text(m, t1, t2):
     types = iter([t1, t2])
     def occ(o): return ('' if o[0] == 1 else f' minOccurs="{o[0]}"') + ('' if o[1] == 1 else ' maxOccurs="%s"' % ('unbounded' if o[1] is None else o[1]))
     def x(p):
-        if p[0] == 'e': return f'<xs:element name="{p[1]}"{occ(p[2])}%s/>' % (f' type="xs:{next(types)}"' if p[1] == 'a' else '')
+        if p[0] == 'e':
+            t = next(types) if p[1] == 'a' else None
+            if t and t.startswith('anon-'):      # an anonymous (inline) type: every occurrence is a type definition of its own
+                return f'<xs:element name="{p[1]}"{occ(p[2])}><xs:simpleType><xs:restriction base="xs:{t[5:]}"/></xs:simpleType></xs:element>'
+            return f'<xs:element name="{p[1]}"{occ(p[2])}%s/>' % (f' type="xs:{t}"' if t else '')
         return '<xs:%s%s>%s</xs:%s>' % ({'seq': 'sequence', 'cho': 'choice'}[p[0]], occ(p[2]), ''.join(x(c) for c in p[1]), {'seq': 'sequence', 'cho': 'choice'}[p[0]])
     return f'<xs:schema {cm.XS}><xs:element name="r"><xs:complexType>{x(m)}</xs:complexType></xs:element></xs:schema>'
 
@@ -82,13 +86,13 @@ def edc_eval(args):
     m = edc_struct(*spec)
     if not cm.upa_ok(m, '1.0'): return None          # attribution itself is ambiguous: judged by the UPA checks above
     out = {}
-    for t1, t2 in (('string', 'string'), ('int', 'int'), ('string', 'int'), ('int', 'string')):
+    for t1, t2 in (('string', 'string'), ('int', 'int'), ('string', 'int'), ('int', 'string'), ('anon-int', 'anon-string'), ('anon-int', 'anon-int'), ('int', 'anon-int')):
         try: _cls(ver)(edc_text(m, t1, t2)); out[t1, t2] = 'accepted'
         except xmlschema.XMLSchemaModelError: out[t1, t2] = 'model-error'
         except xmlschema.XMLSchemaException as e: out[t1, t2] = 'error:' + type(e).__name__
     bad = []
     if out['int', 'int'] != out['string', 'string']: bad.append(f"same-typed pair: string/string {out['string', 'string']} but int/int {out['int', 'int']}")
-    for k in (('string', 'int'), ('int', 'string')):
+    for k in (('string', 'int'), ('int', 'string'), ('anon-int', 'anon-string'), ('anon-int', 'anon-int'), ('int', 'anon-int')):
         if out[k] != 'model-error': bad.append(f'{k[0]}/{k[1]}: {out[k]} (two same-named elements with different types)')
     return dict(spec=spec, ver=ver, model=cm.show(m), bad=bad) if bad else False
 
@@ -100,7 +104,7 @@ def check_edc(tier, seed):
     fails = [dict(case=dict(spec=r['spec'], version=r['ver']), model=r['model'], observed=r['bad'], required='same-named elements with different types in one content model: model error; the same model with equal types: same outcome whatever the type')
              for r in res if r]
     decided = sum(1 for r in res if r is not None)
-    return result('C15.element_declarations_consistent', f'{len(sel)} of {len(list(edc_models()))} three-leaf models (x:T1, y, x:T2; flat / left- / right-nested) x 4 type pairs x 2 schema classes', len(jobs) * 4, fails,
+    return result('C15.element_declarations_consistent', f'{len(sel)} of {len(list(edc_models()))} three-leaf models (x:T1, y, x:T2; flat / left- / right-nested) x 7 type pairs (named and anonymous types) x 2 schema classes', len(jobs) * 7, fails,
                   exhaustive=exhaustive, samples=[dict(model=cm.show(edc_struct(*sel[0])))], distinct=decided, notes=f'{decided} (model, class) pairs have unambiguous attribution and are decided')
 
 
